@@ -692,6 +692,10 @@ func (c *fnCtx) defFacts(a Atom) []Ineq {
 						ge(inner.Sub(av.Scale(k)), "k*(x/k)<=x")
 						ge(av.Scale(k).Add(Const(k-1)).Sub(inner), "x<=k*(x/k)+k-1")
 					}
+				} else if isUnsigned(x.Type()) {
+					// unsigned x/y with a variable divisor: when the division does not panic y >= 1,
+					// so 0 <= x/y <= x
+					ge(c.lin(x.X).Sub(av), "x/y<=x (unsigned)")
 				}
 			case token.SUB:
 				// unsigned subtraction kept opaque; nothing to add
